@@ -47,7 +47,7 @@ extern ssize_t mpt_encode_cobs_r(MPT_STRUCT(encode_state) *info, const struct io
 		--code;
 	}
 	/* need enough data to save end */
-	else if (left <= off) {
+	else if ((left - off) <= code) {
 		return -2;
 	}
 	else {
